@@ -596,21 +596,40 @@ def rule_limits(facts, rep):
                                   "checked_mul", "checked_add") or (n.get("k") in ("bin", "assignop") and n.get("op") in ("Mul", "Add")
                                                                      and n.get("ty") == "u16"))
 
-    def byte_eq(v):
-        def t(e):
-            e = hir.simp(e)
-            return e.get("k") == "bin" and e["op"] == "Eq" and hir.is_local(e["l"], "byte") and hir.lit_val(e["r"]) == v
-        return t
+    def byte_class(frames):
+        """Which byte class the path conditions select: ';' / ':' / anything else (digit), for if-chains and matches on `byte`."""
+        is_v = {59: None, 58: None}   # value -> True (equal) / False (different) / None (unknown)
+        for f in frames:
+            if f.get("kind") == "if":
+                e = hir.simp(f["expr"])
+                if e.get("k") == "bin" and e["op"] in ("Eq", "Ne") and hir.is_local(e["l"], "byte") and hir.lit_val(e["r"]) in is_v:
+                    eq = (e["op"] == "Eq") == f["val"]
+                    is_v[hir.lit_val(e["r"])] = eq
+            elif f.get("kind") == "arm" and hir.is_local(f["scrut"], "byte"):
+                try:
+                    mine = hir.pat_ints(f["pat"])
+                    prior = [hir.pat_ints(p) for p in f["prior"]]
+                except Unrecognised:
+                    return "?"
+                for v in is_v:
+                    if mine is not None:
+                        is_v[v] = (mine == {v}) if v in mine or len(mine) == 1 else is_v[v]
+                        if v not in mine:
+                            is_v[v] = False
+                    elif any(p is not None and v in p for p in prior):
+                        is_v[v] = False
+        if is_v[59] is True:
+            return "semi"
+        if is_v[58] is True and is_v[59] is not True:
+            return "colon"
+        if is_v[59] is False and is_v[58] is False:
+            return "digit"
+        return "?"
 
     got = {}
     for n, frames in sites:
         name = hir.callee(n).split("::")[-1] if n.get("k") == "call" else n.get("op")
-        semi = any(frame_is(f, True, byte_eq(59)) for f in frames)
-        colon = any(frame_is(f, True, byte_eq(58)) for f in frames)
-        not_semi = any(frame_is(f, False, byte_eq(59)) for f in frames)
-        not_colon = any(frame_is(f, False, byte_eq(58)) for f in frames)
-        key = "semi" if semi else "colon" if (colon and not_semi) else "digit" if (not_semi and not_colon) else "?"
-        got.setdefault(key, []).append((name, n))
+        got.setdefault(byte_class(frames), []).append((name, n))
     ok_semi = [x[0] for x in got.get("semi", [])] == ["push"]
     ok_colon = [x[0] for x in got.get("colon", [])] == ["extend"]
     dig = got.get("digit", [])
